@@ -142,6 +142,26 @@ func Load(repoDir, goarch string, overlay map[string][]byte) (*Engine, error) {
 			e.ModFuncs = append(e.ModFuncs, fn)
 		}
 	}
+	staticCallers = map[*ssa.Function][]*ssa.Call{}
+	usedAsValue = map[*ssa.Function]bool{}
+	for _, fn := range e.ModFuncs {
+		for _, b := range fn.Blocks {
+			for _, in := range b.Instrs {
+				var callee *ssa.Function
+				if c, ok := in.(*ssa.Call); ok {
+					if f := c.Call.StaticCallee(); f != nil && f.Blocks != nil {
+						staticCallers[f] = append(staticCallers[f], c)
+						callee = f
+					}
+				}
+				for _, op := range in.Operands(nil) {
+					if f, ok := (*op).(*ssa.Function); ok && f != callee {
+						usedAsValue[f] = true
+					}
+				}
+			}
+		}
+	}
 	e.anchorLog = map[string]bool{}
 	e.override = map[string]*ssa.Function{}
 	e.resolveFields()
@@ -336,7 +356,15 @@ func (e *Engine) NamedType(alias, name string) *types.Named {
 	}
 	o := sp.Pkg.Scope().Lookup(name)
 	if o == nil {
-		return nil
+		// renamed type resolved by structure
+		for k, v := range canonTypes {
+			if v == name && strings.HasPrefix(k, path+".") {
+				o = sp.Pkg.Scope().Lookup(k[len(path)+1:])
+			}
+		}
+		if o == nil {
+			return nil
+		}
 	}
 	n, _ := o.Type().(*types.Named)
 	return n
@@ -610,6 +638,42 @@ func (e *Engine) resolveFields() {
 	for _, f := range old {
 		oldBy[f.Type] = append(oldBy[f.Type], f)
 	}
+	// renamed struct types: an old type that no longer exists is identified
+	// with the only new type of the same package with the same field types
+	shape := func(fs []fieldFP) string {
+		var parts []string
+		for _, f := range fs {
+			parts = append(parts, f.FType)
+		}
+		return strings.Join(parts, ";")
+	}
+	pkgOf := func(t string) string { return t[:strings.LastIndex(t, ".")] }
+	for ot, ofs := range oldBy {
+		if _, still := cur[ot]; still {
+			continue
+		}
+		var cands []string
+		for ct, cfs := range cur {
+			if _, known := oldBy[ct]; known || pkgOf(ct) != pkgOf(ot) {
+				continue
+			}
+			// field types may mention the renamed type itself: compare with the names masked
+			if len(cfs) == len(ofs) && maskNames(shape(cfs), ct, ot) == maskNames(shape(ofs), ct, ot) {
+				cands = append(cands, ct)
+			}
+		}
+		if len(cands) == 1 {
+			ct := cands[0]
+			canonTypes[ct] = ot[strings.LastIndex(ot, ".")+1:]
+			// fields of the renamed type: by position
+			for i, cf := range cur[ct] {
+				if i < len(ofs) && cf.Name != ofs[i].Name {
+					canonFields[ct+"."+cf.Name] = ofs[i].Name
+				}
+			}
+			cur[ot] = nil
+		}
+	}
 	for typ, ofs := range oldBy {
 		cfs := cur[typ]
 		if len(cfs) == 0 {
@@ -648,4 +712,11 @@ func (e *Engine) resolveFields() {
 			}
 		}
 	}
+}
+
+func maskNames(s, a, b string) string {
+	an := a[strings.LastIndex(a, ".")+1:]
+	bn := b[strings.LastIndex(b, ".")+1:]
+	s = strings.ReplaceAll(s, an, "#")
+	return strings.ReplaceAll(s, bn, "#")
 }
